@@ -39,3 +39,28 @@ def lst(items, ty=None, per_line=True):
     if not items:
         return f'([] : List {ty})' if ty else '[]'
     return '[\n  ' + sep.join(items) + '\n]' if per_line else '[' + sep.join(items) + ']'
+
+
+def probe_max_empty(limit=2000):
+    """`MAX_EMPTY` of RangeNode.eval by BEHAVIOUR: the longest run of empty cells inside a one-column range behind which a
+    value is still read (bisection over `=COUNT(A1:<col k+2>1)`, a one-ROW range with A1 = 1 and the last cell = 1).
+    Independent of how the constant is named or held."""
+    from xlcalculator import ModelCompiler, Evaluator
+    from openpyxl.utils import get_column_letter
+
+    def seen(k):
+        last = get_column_letter(k + 2)
+        cells = {'Sheet1!A1': 1, f'Sheet1!{last}1': 1, 'Sheet1!A2': f'=COUNT(A1:{last}1)'}
+        return int(Evaluator(ModelCompiler().read_and_parse_dict(cells)).evaluate('Sheet1!A2')) == 2
+    if not seen(0):
+        raise ValueError('probe_max_empty: a range without empty cells is not read completely')
+    if seen(limit):
+        return limit            # no cut-off below the probing limit
+    lo, hi = 0, limit           # seen(lo), not seen(hi)
+    while hi - lo > 1:
+        mid = (lo + hi) // 2
+        if seen(mid):
+            lo = mid
+        else:
+            hi = mid
+    return lo
